@@ -343,6 +343,13 @@ same order, same list lengths, every scalar elsewhere identical -/
 theorem frame (cfg : Cfg) (v v' : Val) (h : resolve cfg v = .ok v') : Frame CV.Gen.resolvers TPath.root v v' :=
   walk_frame _ cfg _ v v' h
 
+/-- at a node whose path matches a row, the walker does exactly what that row's resolver does (and does not descend) -/
+theorem walk_at_row (cfg : Cfg) (p : TPath) (v : Val) (h : String) (hm : firstMatch CV.Gen.resolvers p = some h) :
+    walk CV.Gen.resolvers cfg p v = applyResolver cfg h v :=
+  walk_of_match _ cfg p v h hm
+
+example : firstMatch CV.Gen.resolvers ["services", "a", "build", "context"] = some "absContextPath" := by decide
+
 /-- a scalar at a path no row matches is returned as it is -/
 theorem frame_scalar (cfg : Cfg) (p : TPath) (v : Val) (hm : firstMatch CV.Gen.resolvers p = none)
     (hs : (∀ kvs, v ≠ .map kvs) ∧ (∀ xs, v ≠ .seq xs)) : walk CV.Gen.resolvers cfg p v = .ok v :=
